@@ -52,6 +52,12 @@ HERE = os.path.dirname(os.path.abspath(__file__))
 CORPUS = os.path.join(os.path.dirname(os.path.dirname(HERE)), "corpus", "c05")
 DTS = [0.0, 0.0009765625, 0.03125, 0.0625, 0.0625, 0.125, 0.125, 0.25, 0.5, 1.0, 2.0]
 BIG = 2 ** 16
+SPIN_DT = 0.0009765625     # virtual cost of one useless send inside the leader's send loop, see Hist._guard
+SEND_CAP = 400000
+
+
+class Runaway(BaseException):
+    """a single history sent an absurd number of messages (a loop that virtual time cannot end)"""
 
 
 def _quiet_logs():
@@ -91,6 +97,25 @@ class Hist(object):
         self.pairs = [(a, b) for n, a in enumerate(self.V) for b in self.V[n + 1:]] + \
                      [(o, v) for o in self.O for v in self.V]
         self.notes = {}
+        self.spins = 0
+        self._guard()
+
+    def _guard(self):
+        """`__sendAppendEntries` ends its per-node loop by the wall clock only (`delta > appendEntriesPeriod`).  While
+        the serializer is busy (`getTransmissionData` -> None, e.g. on the tick after a compaction started) a node
+        that needs the snapshot makes that loop spin: it re-sends `serialized: None` until the clock stops it.
+        Under a frozen virtual clock this never ends, so each such send costs the sender SPIN_DT of its own time
+        (sending takes time on a real machine too); nothing else touches the clocks."""
+        sim, orig, h = self.sim, self.sim._send, self
+
+        def _send(a, b, msg):
+            if msg.get("type") == "append_entries" and "serialized" in msg and msg["serialized"] is None:
+                sim.now[a] += SPIN_DT
+                h.spins += 1
+            if len(sim.sent) > SEND_CAP:
+                raise Runaway("more than %d messages in one history" % SEND_CAP)
+            return orig(a, b, msg)
+        sim._send = _send
 
     # -- event execution -------------------------------------------------------------------------
     def ev(self, *e):
@@ -635,6 +660,7 @@ def scenario(repo, p, workdir=None):
     pre_cmds = sum(1 for e in h.events if e[0] == "submit")
     cov["submissions"] = pre_cmds
     cov["compactions"] = sum(1 for e in h.events if e[0] == "compact")
+    cov["spin_sends_before_heal"] = h.spins
     execs0 = dict((i, len(s.execs[i])) for i in h.A)
     log0 = dict((i, len(s.objs[i].log)) for i in h.A)
 
@@ -893,7 +919,7 @@ def _fails(repo, p, events, sig, workdir):
     q["events"] = events
     try:
         r = scenario(repo, q, workdir)
-    except Exception:
+    except (Exception, Runaway):
         return False
     return any(v["signature"] == sig for v in r["viol"])
 
@@ -924,7 +950,7 @@ def _work(args):
     t0 = time.time()
     try:
         r = scenario(repo, p, workdir)
-    except Exception:
+    except (Exception, Runaway):
         import traceback
         return {"p": p, "error": traceback.format_exc()[-1500:], "wall": time.time() - t0}
     return {"p": p, "viol": r["viol"], "cov": r["cov"], "events": r["events"] if r["viol"] else None,
